@@ -18,7 +18,7 @@
     bu.go   `notifyConditionalBranch` (clears the control unit's flag)
     cpu.go  the flush path: the execute units keep cycling (with the cycle number frozen at `fromCycle`) until all
             are empty, the write units drain after every such cycle, an inner flush may replace the target;
-            an error in that loop makes `Run` return `(0, nil)`
+            an error in that loop ends the run with that error (before the fix of M61-defect-1: `return 0, nil`)
     wu.go, mmu.go, btb.go: same code (coroutine syntax / an `int32` conversion only).
 
   Shared mutable objects of the Go code made explicit:
@@ -611,8 +611,8 @@ def cycleM (app : App) (s : State) : M (State × Event) :=
   | .flushF seq pc fromCycle => do
     let s := { s with cycles := s.cycles + 1 }
     let (s, acc) ← eusCycleFlush app fromCycle s.eus.length 0 s { seq := seq, pc := pc }
-    -- `if resp.err != nil { return 0, nil }`: the run ends, successfully, with cycle count 0 and no cache flush
-    if acc.err then pure ({ s with cycles := 0, mode := .normal }, .done .offEnd)
+    -- `if resp.err != nil { return 0, resp.err }` (was `return 0, nil` before the fix of M61-defect-1)
+    if acc.err then pure (s, .done .err)
     else
       let s := { s with writeBus := s.writeBus.connect (s.cycles + 1) }
       pure (goFlushW s acc.seq acc.pc fromCycle acc.isEmpty s.wus.length 0)
